@@ -1,8 +1,282 @@
 import HapVerif.Model.C01
 import HapVerif.Drv.Common
+/-
+Driver of C01. Case line: `C01 hist <op> <op> ... => <verdict> <obs> <obs> ...`
+  op      : one operation of harness/world/ops.go, `sync` = reconcile boundary
+  verdict : eq | diff:<first differing line of the two normal forms> | err:<..>
+  obs     : one token per sync, what the REAL controller did (see harness/cmd/hv/c01.go c01obs)
+The model replays the history; `agree` = it predicts every observation of every sync:
+  mode (full/partial), links and added/updated/deleted ingresses of the batch (watchers model),
+  number of dirty hosts/backends returned by the tracker, connected components of the tracker after
+  the sync, hosts/paths/backend ids of the haproxy model; the names logged as "updating" must be
+  explained (dirty or new). The Go-recursion mirror of the tracker must agree with the edge-list model.
+`oracle` = the long-lived pipeline equals the fresh one; a failing history is classified by the first
+violated side condition of the proof (signature) or `unexplained-difference`.
+-/
 namespace HapVerif.C01
 open HapVerif.Drv
 
-def handle (_args : List String) (_impl : String) : Verdict := bad "C01-not-implemented"
+def unq (s : String) : String := if s = "_" then "" else s
+def parseOpt (s : String) : Option String := if s = "-" then none else some (unq s)
+
+def parseKV (s : String) : List (String × String) :=
+  if s = "-" ∨ s = "" then [] else
+    (s.splitOn ";").filterMap fun kv =>
+      match kv.splitOn "=" with
+      | k :: v :: rest => some (k, unq ("=".intercalate (v :: rest)))
+      | _ => none
+
+def splitKey (s : String) : String × String :=
+  match s.splitOn "/" with
+  | [n] => ("", n)
+  | ns :: rest => (ns, "/".intercalate rest)
+  | [] => ("", "")
+
+def parsePath (s : String) : PathDecl :=
+  let f := s.splitOn ":"
+  let g (i : Nat) : String := unq (f.getD i "_")
+  { path := g 0, ptype := g 1, svc := f.getD 2 "_", port := g 3 }
+
+def parseIngress (text : String) : Option Ingress :=
+  match text.splitOn "!" with
+  | [f0, f1, f2, f3, f4, f5] =>
+    let (nn, ts) := splitOn1 f0 "@"
+    let (ns, name) := splitKey nn
+    let (ca, cn) := splitOn1 f1 ","
+    let rules : List Rule := if f3 = "-" then [] else
+      (f3.splitOn ";").map fun r =>
+        let (h, ps) := splitOn1 r ">"
+        { host := unq h, paths := if ps = "" then [] else (ps.splitOn "+").map parsePath }
+    let tls : List TlsDecl := if f4 = "-" then [] else
+      (f4.splitOn ";").map fun t =>
+        let (hs, sec) := splitOn1 t ">"
+        { hosts := if hs = "" then [] else (hs.splitOn "+").map unq, secret := unq sec }
+    let defB : Option (String × String) := if f5 = "-" then none else
+      let (s, p) := splitOn1 f5 ":"
+      some (s, unq p)
+    some { ns := ns, name := name, created := ts.toNat?.getD 0, classAnn := parseOpt ca,
+           className := if f1.contains ',' then parseOpt cn else none,
+           ann := parseKV f2, rules := rules, tls := tls, defBackend := defB }
+  | _ => none
+
+def parsePorts (s : String) : List SvcPort :=
+  if s = "-" then [] else
+    (s.splitOn "+").filterMap fun p =>
+      match p.splitOn ":" with
+      | [n, pt, t] => some { name := unq n, port := pt.toNat?.getD 0, target := t }
+      | _ => none
+
+def parseAddrs (s : String) : List (String × Bool × String) :=
+  if s = "-" then [] else
+    (s.splitOn "+").filterMap fun a =>
+      match a.splitOn ":" with
+      | [ip, r, pod] => some (ip, r == "r", unq pod)
+      | _ => none
+
+inductive Tok
+  | op (o : Op)
+  | sync
+  | bad (s : String)
+
+def parseOp (t : String) : Tok :=
+  if t = "sync" then .sync else
+  let pick : Option (String × Char × String) :=
+    ["ing", "svc", "sec", "cls", "pod", "ep", "cm"].foldl (fun acc k =>
+      if t.startsWith k ∧ t.length > k.length then
+        some (k, (t.drop k.length).front, (t.drop (k.length + 1)).toString) else acc) none
+  match pick with
+  | none => .bad t
+  | some (kind, act, arg) =>
+    let del := act == '-'
+    match kind with
+    | "ing" =>
+      if del then .op (.ingDel arg) else
+        match parseIngress arg with
+        | some i => .op (.ingSet i)
+        | none => .bad t
+    | "svc" =>
+      if del then .op (.svcDel arg) else
+        match arg.splitOn "!" with
+        | [k, ps, ann] => .op (.svcSet { key := k, ports := parsePorts ps, ann := parseKV ann })
+        | _ => .bad t
+    | "ep" =>
+      if del then .op (.epDel arg) else
+        match arg.splitOn "!" with
+        | [k, as] =>
+          let l := parseAddrs as
+          .op (.epSet k ((l.filter (·.2.1)).map fun a => (a.1, a.2.2)) ((l.filter (!·.2.1)).map fun a => (a.1, a.2.2)))
+        | _ => .bad t
+    | "sec" =>
+      if del then .op (.secDel arg) else
+        match arg.splitOn "!" with
+        | [k, kind, v, _] => .op (.secSet { key := k, kind := kind, version := v.toNat?.getD 0 })
+        | _ => .bad t
+    | "cls" =>
+      if del then .op (.clsDel arg) else
+        match arg.splitOn ":" with
+        | n :: c :: rest => .op (.clsSet n (":".intercalate (c :: rest)))
+        | _ => .bad t
+    | "cm" => .op (.cmSet (if arg = "-" then [] else parseKV arg))
+    | "pod" =>
+      if del then .op (.podDel arg) else
+        match arg.splitOn "!" with
+        | [k, ip, labels, tm] => .op (.podSet { key := k, ip := ip, labels := parseKV labels, term := tm == "t" })
+        | _ => .bad t
+    | _ => .bad t
+
+/-- annotations the model covers (no tracking, no control flow in the converter) -/
+def tracerAnn : List String := ["app-root", "balance-algorithm", "ssl-redirect", "maxconn-server"]
+
+def opInFragment : Op → Bool
+  | .ingSet i =>
+    i.ann.all (fun kv => kv.1 ∈ tracerAnn) &&
+    i.tls.all (fun t => !(t.secret.contains '/') && !(t.secret.contains ':')) &&
+    i.rules.all (fun r => !(r.host.contains ':') && r.paths.all fun p => !(p.svc.contains '/'))
+  | .svcSet s => s.ann.all fun kv => kv.1 ∈ tracerAnn
+  | .cmSet d => d.all fun kv => kv.1 ∈ ["drain-support", "max-connections"]
+  | _ => true
+
+/-! ### rendering (same canonical forms as the harness) -/
+
+def sortStr (l : List String) : List String := l.mergeSort fun a b => !(decide (b < a))
+
+def kindCode : Kind → String
+  | .ing => "I" | .cls => "C" | .cm => "M" | .svc => "S" | .ep => "E" | .sec => "X"
+  | .pod => "P" | .tcp => "T" | .host => "H" | .back => "B" | .user => "U" | .acme => "A"
+
+def nodeStr (n : Node) : String := kindCode n.kind ++ ":" ++ n.name
+
+def joinC (l : List String) : String := ",".intercalate l
+
+/-- connected components of the model tracker -/
+def components (t : Tr Node) : List (List Node) :=
+  (dedup (ends t)).foldl (fun acc n => if acc.any (·.contains n) then acc else acc ++ [queryOut t [n]]) []
+
+def partitionStr (t : Tr Node) : String :=
+  "|".intercalate (sortStr ((components t).map fun c => joinC (sortStr (c.map nodeStr))))
+
+def hostsStr (st : St) : String :=
+  joinC (sortStr (st.hosts.flatMap fun h =>
+    if h.paths.isEmpty then [h.name ++ "^^^"]
+    else h.paths.map fun p => h.name ++ "^" ++ p.path ++ "^" ++ p.mtch ++ "^" ++ p.back))
+
+def backsStr (st : St) : String := joinC (sortStr (st.backs.map (·.id)))
+
+def field (obs : List String) (k : String) : String :=
+  match obs.find? (·.startsWith (k ++ "=")) with
+  | some f => (f.drop (k.length + 1)).toString
+  | none => "?"
+
+def csv (s : String) : List String := if s = "" then [] else s.splitOn ","
+
+def halfOf (t : Tr Node) : Half Node := t.flatMap fun e => [(e.1, e.2), (e.2, e.1)]
+
+def sameSet (a b : List Node) : Bool := a.all (· ∈ b) && b.all (· ∈ a)
+
+/-- the Go recursion mirror and the edge-list model give the same output and the same remaining links -/
+def mirrorAgrees (t : Tr Node) (seeds : List Node) : Bool :=
+  match goQuery (halfOf t) seeds true with
+  | none => false
+  | some (out, d') =>
+    sameSet out (queryOut t seeds) &&
+      (let r := halfOf (rest t seeds)
+       d'.all (· ∈ r) && r.all (· ∈ d'))
+
+structure Run where
+  w : World := {}
+  c : Ctl := {}
+  b : Batch := {}
+  k : Nat := 0                          -- syncs so far
+  mism : Option String := none          -- first disagreement with the implementation
+  sig : Option String := none           -- first violated side condition
+  nontrivial : Bool := false
+
+/-- one reconciliation of the model, compared with the observation token of the implementation -/
+def doSync (r : Run) (obs? : Option String) : Run :=
+  let w := r.w
+  let b := r.b
+  let full := needFull r.c b
+  let old := r.c.st
+  -- partial-sync internals (for the observations and the side conditions)
+  let st1 := preTrack w b old
+  let out := if full then [] else queryOut st1.tr b.links
+  let dH := namesOf .host out
+  let dB := namesOf .back out
+  let mirrorOk := full || mirrorAgrees st1.tr b.links
+  let sig := if full || r.sig.isSome then r.sig else
+    if !(lateBacks w b old).isEmpty then some "late-ref-surviving-backend"
+    else if !(lateHosts w b old).isEmpty then some "late-ref-surviving-host"
+    else none
+  let c' := reconcile w b r.c
+  let new := c'.st
+  let k := r.k + 1
+  let mism := if r.mism.isSome then r.mism else
+    match obs? with
+    | none => none     -- the implementation stopped before this sync (difference or error)
+    | some o =>
+      let f := o.splitOn ";"
+      let chk (name model impl : String) : Option String :=
+        if model = impl then none else some s!"sync{k}:{name}:model={model}:impl={impl}"
+      let oldH := old.hosts.map (·.name)
+      let newH := new.hosts.map (·.name)
+      let oldB := old.backs.map (·.id)
+      let newB := new.backs.map (·.id)
+      let explained (u oldL newL dirty : List String) : Bool :=
+        if full then u.all (fun x => x ∈ oldL ∨ x ∈ newL) && newL.all (fun x => x ∈ oldL ∨ x ∈ u) && oldL.all (fun x => x ∈ newL ∨ x ∈ u)
+        else u.all (fun x => if x ∈ oldL then x ∈ dirty ∨ x ∈ lateBacks w b old ∨ x ∈ lateHosts w b old else x ∈ newL) &&
+          newL.all (fun x => x ∈ oldL ∨ x ∈ u) && oldL.all (fun x => x ∈ newL ∨ x ∈ u)
+      let checks : List (Option String) := [
+        chk "mode" (if full then "F" else "P") (f.headD "?"),
+        chk "links" (joinC (sortStr (b.links.map nodeStr))) (field f "L"),
+        chk "add" (joinC (sortStr (b.add.map (·.key)))) (field f "A"),
+        chk "upd" (joinC (sortStr (b.upd.map (·.key)))) (field f "U"),
+        chk "del" (joinC (sortStr b.del)) (field f "D"),
+        chk "dirty" (if full then "-,-" else s!"{dH.length},{dB.length}") (field f "n"),
+        chk "tracker" (partitionStr new.tr) (field f "P"),
+        chk "hosts" (hostsStr new) (field f "H"),
+        chk "backs" (backsStr new) (field f "B"),
+        if (if full then (csv (field f "uh")).all (· ∈ newH) && newH.all (· ∈ csv (field f "uh"))
+            else explained (csv (field f "uh")) oldH newH dH) then none else some s!"sync{k}:updating-hosts:{field f "uh"}:dirty={joinC dH}",
+        if explained (csv (field f "ub")) oldB newB dB then none else some s!"sync{k}:updating-backends:{field f "ub"}:dirty={joinC dB}",
+        if mirrorOk then none else some s!"sync{k}:go-mirror"]
+      checks.findSome? id
+  { w := w, c := c', b := {}, k := k, mism := mism, sig := sig,
+    nontrivial := r.nontrivial || (!full && !out.isEmpty) }
+
+def handle (args : List String) (impl : String) : Verdict :=
+  match args with
+  | "hist" :: ops =>
+    let toks := ops.map parseOp
+    match toks.findSome? (fun | .bad s => some s | _ => none) with
+    | some s => bad ("op:" ++ s)
+    | none =>
+      let toks := if (ops.getLast?.getD "") = "sync" then toks else toks ++ [.sync]
+      let iw := words impl
+      let verdict := iw.headD "?"
+      let obs := iw.drop 1
+      let inFrag := toks.all fun | .op o => opInFragment o | _ => true
+      let oracleOf (sig : Option String) : Option String :=
+        if verdict = "eq" then none
+        else if verdict.startsWith "diff:" then
+          some (if !inFrag then "outside-model-difference" else sig.getD "unexplained-difference")
+        else some ("error-" ++ ((verdict.splitOn ":").getD 1 "?" |>.take 40).toString)
+      if !inFrag then
+        { model := "outside-fragment", agree := true, oracle := oracleOf none, trivial := true }
+      else
+        let r := toks.foldl (fun (ro : Run × List String) t =>
+          match t with
+          | .op o => let (w', b') := applyOp (ro.1.w, ro.1.b) o; ({ ro.1 with w := w', b := b' }, ro.2)
+          | .sync => (doSync ro.1 ro.2.head?, ro.2.drop 1)
+          | .bad _ => ro) (({} : Run), obs)
+        let run := r.1
+        -- the implementation stops at the first difference: fewer observations than syncs is fine then
+        let short := obs.length < run.k ∧ verdict = "eq"
+        match run.mism with
+        | some m => { model := m, agree := false, oracle := oracleOf run.sig }
+        | none =>
+          if short then { model := s!"missing-observations:{obs.length}<{run.k}", agree := false, oracle := oracleOf run.sig }
+          else { model := s!"agree:syncs={run.k}:sig={run.sig.getD "-"}", agree := true, oracle := oracleOf run.sig,
+                 trivial := !run.nontrivial }
+  | _ => bad "C01"
 
 end HapVerif.C01
